@@ -616,11 +616,8 @@ func TestCloudBlobProviderConverges(t *testing.T) {
 		steps := rapid.IntRange(1, maxSteps()).Draw(t, "steps")
 
 		poll := func() {
-			// an object that cannot be decoded aborts the whole poll: nothing may change then
-			aborted := false
-			for s := 0; s < nsrc; s++ {
-				aborted = aborted || content[s] == "syntax"
-			}
+			// Every object is a source of its own: one which cannot be decoded, or whose rule set the processor refuses,
+			// keeps its previously loaded version, and has no influence on what happens to the other objects.
 
 			// the object store may fail: the listing or the access to one object ends with a communication error or a
 			// timeout. The documentation: "in case of network issues ... the rule sets previously received from the
@@ -667,42 +664,22 @@ func TestCloudBlobProviderConverges(t *testing.T) {
 
 			var want []string
 
-			if !aborted {
-				// removed objects are handled first, then the objects in listing (key) order
-				for s := 0; s < nsrc; s++ {
-					if c := content[s]; c == "" || c == "empty" {
-						want = append(want, m.observe(s, "gone")...)
-					}
+			// removed objects are handled first, then the objects in listing (key) order
+			for s := 0; s < nsrc; s++ {
+				if c := content[s]; c == "" || c == "empty" {
+					want = append(want, m.observe(s, "gone")...)
 				}
+			}
 
-				for s := 0; s < nsrc; s++ {
-					if c := content[s]; c != "" && c != "empty" {
-						ops := m.observe(s, c)
-						want = append(want, ops...)
-
-						if len(ops) == 1 && strings.HasSuffix(ops[0], "!") {
-							break // a rejected rule set aborts the rest of the poll
-						}
-					}
+			for s := 0; s < nsrc; s++ {
+				if c := content[s]; c != "" && c != "empty" {
+					want = append(want, m.observe(s, c)...)
 				}
 			}
 
 			history = append(history, fmt.Sprintf("poll (bucket holds %v, objects without MD5: %v)", content, faults.noMD5))
 
 			_ = prov.Poll(fetcher)
-
-			if aborted || containsRejected(want) {
-				// don't-care for the other objects in this poll: resynchronise the model with what is active
-				rec.take()
-
-				for s := 0; s < nsrc; s++ {
-					if a := active(w, s); !strings.HasPrefix(a, "BOTH") && !strings.HasPrefix(a, "error") {
-						m.applied[s] = a
-					}
-				}
-
-				return
-			}
 
 			checkStep(t, w, rec, m, nsrc, want, history)
 		}
